@@ -13,7 +13,8 @@ import os
 import vlib
 from vlib import enc_str as E, enc_list, dec_list, dec_str
 
-THEOREMS = ["C04_tables"]
+THEOREMS = ["C04_tables", "C04_find_own_end", "C04_steps_det", "C04_sim", "C04_program", "C04_program_unique",
+            "C04_for_elements", "C04_nonvacuous"]
 
 
 # ---- trees -> prefix notation ---------------------------------------------------------------------
@@ -294,6 +295,72 @@ def split_result(r):
     return "|".join(parts[:3]), "|".join(parts[3:])
 
 
+def judge(wf, spec, model, io):
+    """None when the case agrees, else a description of the disagreement"""
+    if wf != "T":
+        return "generated program is outside the theorem's domain (wf = F)"
+    if spec.startswith("OK") and model.startswith("OK"):
+        if split_result(model)[0] != spec:
+            return "extracted model and extracted spec (tree_run) disagree"
+        if io != model:
+            mi, ci = split_result(model), split_result(io)
+            if not io.startswith("OK"):
+                return "implementation stopped (%s) where the structured semantics runs to the end" % io
+            if mi[0] != ci[0]:
+                return "trace / final variables differ from the tree-walking interpreter"
+            return "cached block tables differ from the model's"
+        return None
+    if spec == "ERR" or spec == "FUEL" or model == "FUEL":
+        return None    # array_push on a variable that holds no array / divergence: outside the compared domain
+    return "spec is %s but the flat machine %s" % (spec[:10], model[:30])
+
+
+def variants(b):
+    """smaller blocks: one statement removed, or a construct replaced by one of its bodies"""
+    for k in range(len(b)):
+        yield b[:k] + b[k + 1:]
+    for k, s in enumerate(b):
+        if s[0] == "i":
+            yield b[:k] + s[3] + b[k + 1:]
+            for j, el in enumerate(s[4]):
+                yield b[:k] + el[-1] + b[k + 1:]
+                yield b[:k] + [("i", s[1], s[2], s[3], s[4][:j] + s[4][j + 1:], s[5])] + b[k + 1:]
+                for v in variants(el[-1]):
+                    yield b[:k] + [("i", s[1], s[2], s[3], s[4][:j] + [el[:-1] + (v,)] + s[4][j + 1:], s[5])] + b[k + 1:]
+            for v in variants(s[3]):
+                yield b[:k] + [("i", s[1], s[2], v, s[4], s[5])] + b[k + 1:]
+        elif s[0] == "w":
+            yield b[:k] + s[3] + b[k + 1:]
+            for v in variants(s[3]):
+                yield b[:k] + [("w", s[1], s[2], v, s[4])] + b[k + 1:]
+        elif s[0] == "f":
+            for v in variants(s[4]):
+                yield b[:k] + [("f", s[1], s[2], s[3], v, s[5])] + b[k + 1:]
+
+
+def shrink(ck, tree, init, budget=150):
+    """greedy: keep any smaller tree on which model / spec / implementation still disagree"""
+    def failing(t):
+        mo = ck.model([case_line(t, init)], timeout=60)[0].split("\t")
+        if len(mo) != 4:
+            return None
+        io = ck.impl(["R\t%s\t%s" % (mo[0], enc_list(init))], timeout=120)[0]
+        return (mo, io) if judge(mo[1], mo[2], mo[3], io) else None
+    best, res = tree, None
+    progress = True
+    while progress and budget > 0:
+        progress = False
+        for v in variants(best):
+            budget -= 1
+            if budget <= 0:
+                break
+            r = failing(v)
+            if r:
+                best, res, progress = v, r, True
+                break
+    return best, res
+
+
 def run(ck):
     ck.gen_from_source()
     ck.obligations.append("generated tables: GenFlowNames.v regenerated from the flow-control sources")
@@ -373,27 +440,29 @@ def run(ck):
     n_spelling = len(cases)
     # 2. every skeleton with <= N constructs, depth <= 3, under every boolean script of length L
     n_constr = 4 if thorough else 3
-    script_len = 6 if thorough else 5
+    script_len = 5
     scripts = ["".join(p) for p in itertools.product("TF", repeat=script_len)] + ["", "T", "TT"]
-    n_skel = 0
-    for n in range(1, n_constr + 1):
-        for forest in forests(n, 3):
-            n_skel += 1
-            loopvars = []
-            blk = [("c", ("A", "h", ["p", "q"]))] + skeleton_block(forest, T, Namer(), loopvars)
-            nconds = sum(1 for tok in t_block(blk) if tok == "N")
-            for sc in scripts:
-                # a script longer than needed only changes the left-over: keep all for <= 2 conditions,
-                # otherwise only the full-length ones
-                if len(sc) < script_len and nconds > 2:
-                    continue
-                cases.append(("skeleton", blk, ["c", sc]))
-    n_exh = len(cases)
-    # 3. random programs
+    skel_count = {"skeletons": 0, "cases": 0}
     g = Gen(rng, T, safe_values or ["x"])
-    for _ in range(60000 if thorough else 6000):
-        tree, init = g.program(60, rng.choice([1, 2, 3, 4, 5, 5]))
-        cases.append(("random", tree, init))
+
+    def stage_b():
+        for n in range(1, n_constr + 1):
+            for forest in forests(n, 3):
+                skel_count["skeletons"] += 1
+                loopvars = []
+                blk = [("c", ("A", "h", ["p", "q"]))] + skeleton_block(forest, T, Namer(), loopvars)
+                nconds = sum(1 for tok in t_block(blk) if tok == "N")
+                for sc in scripts:
+                    # a script longer than needed only changes the left-over: keep all for <= 2 conditions,
+                    # otherwise only the full-length ones
+                    if len(sc) < script_len and nconds > 2:
+                        continue
+                    skel_count["cases"] += 1
+                    yield ("skeleton", blk, ["c", sc])
+        # 3. random programs
+        for _ in range(60000 if thorough else 15000):
+            tree, init = g.program(60, rng.choice([1, 2, 3, 4, 5, 5]))
+            yield ("random", tree, init)
 
     nontriv = set()
     dist = {"kinds": {}, "model_outcomes": {}, "constructs": {}, "depth": {}, "instructions": {}, "trace_len": {}}
@@ -412,6 +481,22 @@ def run(ck):
             idx.append(k)
             impl_lines.append("R\t%s\t%s" % (f[0], enc_list(cases[k][2])))
         i_out = ck.impl(impl_lines, timeout=900)
+        # a HANG verdict (CPU-time fuse of the harness) is confirmed with a five times longer fuse
+        # before it is believed; if the first one is not confirmed all of them are re-run that way
+        hangs = [pos for pos, o in enumerate(i_out) if o == "HANG"]
+        if hangs:
+            def rerun(positions):
+                import subprocess
+                exe_i = os.path.join(vlib.CARGO_TARGET, "release", "c04")
+                env = dict(os.environ, VERIF_C04_FUSE_MS="20000")
+                r = subprocess.run([exe_i], input="\n".join(impl_lines[q] for q in positions) + "\n", env=env,
+                                   stdout=subprocess.PIPE, stderr=subprocess.PIPE, text=True, timeout=1500)
+                return r.stdout.split("\n")[:len(positions)]
+            first = rerun(hangs[:1])
+            if first and first[0] != "HANG":
+                i_out[hangs[0]] = first[0]
+                for q, o in zip(hangs[1:], rerun(hangs[1:])):
+                    i_out[q] = o
         for pos, (k, io) in enumerate(zip(idx, i_out)):
             kind, tree, init = cases[k]
             text, wf, spec, model = m_out[k].split("\t")
@@ -424,31 +509,21 @@ def run(ck):
             script_lines = dec_list(text)
             for key, val in (("constructs", ncon), ("depth", st["depth"]), ("instructions", len(script_lines) // 10 * 10)):
                 dist[key][val] = dist[key].get(val, 0) + 1
-            bad = None
-            if wf != "T":
-                bad = "generated program is outside the theorem's domain (wf = F)"
-            elif spec.startswith("OK") and model.startswith("OK"):
+            if spec.startswith("OK") and model.startswith("OK"):
                 tr = model.split("|")[1]
                 tl_ = min(len(tr[2:].split(";")) if tr != "T:" else 0, 50) // 5 * 5
                 dist["trace_len"][tl_] = dist["trace_len"].get(tl_, 0) + 1
                 if ncon >= 1:
                     nontriv.add((text, tuple(init)))
-                if split_result(model)[0] != spec:
-                    bad = "extracted model and extracted spec (tree_run) disagree"
-                elif io != model:
-                    mi, ci = split_result(model), split_result(io)
-                    if not io.startswith("OK"):
-                        bad = "implementation stopped (%s) where the structured semantics runs to the end" % io
-                    elif mi[0] != ci[0]:
-                        bad = "trace / final variables differ from the tree-walking interpreter"
-                    else:
-                        bad = "cached block tables differ from the model's"
-            elif spec == "ERR":
-                pass    # array_push on a variable that holds no array: outside the compared domain
-            elif spec == "FUEL" or model == "FUEL":
-                pass
-            else:
-                bad = "spec is %s but the flat machine %s" % (spec[:10], model[:30])
+            bad = judge(wf, spec, model, io)
+            if bad and len(ck.violations) < 5 and kind in ("random", "skeleton"):
+                # shrink: report the smallest program found that still disagrees
+                small, res = shrink(ck, tree, init)
+                if res:
+                    (text, wf, spec, model), io = res
+                    tree, script_lines = small, dec_list(text)
+                    bad = judge(wf, spec, model, io) + " (shrunk)"
+                    impl_lines[pos] = "R\t%s\t%s" % (text, enc_list(init))
             if bad:
                 counters["found"] = True
                 if len(ck.violations) < 5:
@@ -456,7 +531,7 @@ def run(ck):
                         "kind": bad, "case_kind": kind, "script": script_lines, "initial_variables": init,
                         "tree_prefix": " ".join(t_block(tree)),
                         "spec(tree_run)": spec, "model(flat machine)": model, "implementation": io,
-                        "theorems": ["C04_sim_partial", "C04_find_own_end", "C04_tables"], "seed": ck.seed,
+                        "theorems": ["C04_sim", "C04_program", "C04_find_own_end", "C04_tables"], "seed": ck.seed,
                         "replay_cmd": "printf '%s\\n' | .cache/cargo-target/release/c04" % impl_lines[pos].replace("\t", "\\t"),
                     })
             elif len(samples) < 4 and kind in ("skeleton", "random") and ncon >= 2 and (k % 997 == 0 or kind == "random" and len(samples) < 2):
@@ -466,9 +541,59 @@ def run(ck):
     # every loop hang would otherwise cost seconds per case): skeletons and random programs
     evaluate(cases[:n_spelling])
     if not counters["found"]:
-        evaluate(cases[n_spelling:])
+        chunk = []
+        for cse in stage_b():
+            chunk.append(cse)
+            if len(chunk) >= 150000:
+                evaluate(chunk)
+                chunk = []
+                if counters["found"]:
+                    break
+        if chunk and not counters["found"]:
+            evaluate(chunk)
+    # stage C: malformed stream — a compiled random program with one line deleted, replaced by a
+    # generic end, or swapped with its successor.  Off the theorem's domain, so only what the model
+    # reproduces faithfully is compared: a run to the end must agree completely; the first Error is
+    # compared by line, a Crash by kind (after an Error the real runner goes on, the model stops).
+    n_mal = 0
+    mal_dist = {}
+    if not counters["found"]:
+        mal = []
+        for _ in range(30000 if thorough else 4000):
+            tree, init = g.program(40, rng.choice([1, 2, 3, 4]))
+            mal.append((tree, init, rng.choice("dddees"), rng.randint(0, 60)))
+        mlines = ["M\t%s\t%s\t%s\t%d" % (enc_list(i), " ".join(t_block(t)), op, k) for (t, i, op, k) in mal]
+        mm = ck.model(mlines, timeout=900)
+        ok_idx = [k for k, o in enumerate(mm) if len(o.split("\t")) == 2]
+        ii = ck.impl(["R\t%s\t%s" % (mm[k].split("\t")[0], enc_list(mal[k][1])) for k in ok_idx], timeout=900)
+        for k, io in zip(ok_idx, ii):
+            text, model = mm[k].split("\t")
+            n_mal += 1
+            cls = model.split("|")[0].split(" ")[0] if model.startswith("OK") else " ".join(model.split(" ")[::2])
+            mal_dist[cls] = mal_dist.get(cls, 0) + 1
+            bad = None
+            if model.startswith("OK"):
+                if io != model:
+                    bad = "malformed program: the flat machine runs to the end but the implementation differs"
+            elif model.startswith("STOP"):
+                _, l, kindm = model.split(" ")
+                if kindm.startswith("Crash"):
+                    if not io.startswith("CRASH"):
+                        bad = "malformed program: the model crashes (block end not found) at line %s, the implementation does not" % l
+                elif kindm.startswith("Error"):
+                    if not (io.startswith("CRASH") or io.startswith("ERROR %s " % l)):
+                        bad = "malformed program: first error expected at line %s" % l
+                else:
+                    bad = "malformed program: the model reports %s" % kindm
+            if bad:
+                counters["found"] = True
+                if len(ck.violations) < 5:
+                    ck.violation({"kind": bad, "case_kind": "malformed", "script": dec_list(text),
+                                  "initial_variables": mal[k][1], "model(flat machine)": model, "implementation": io,
+                                  "theorems": ["(off-domain: model fidelity only)"], "seed": ck.seed,
+                                  "replay_cmd": "printf 'R\\t%s\\t%s\\n' | .cache/cargo-target/release/c04" % (text, enc_list(mal[k][1]))})
     found = counters["found"]
-    n_eval = counters["eval"]
+    n_eval = counters["eval"] + n_mal
 
     ck.coverage.update({
         "evaluations": n_eval,
@@ -480,10 +605,11 @@ def run(ck):
                 "read by all conditions; random part: programs of <= 60 instructions, depth <= 5, random spellings, "
                 "next / ${var} / not conditions, arrays of 0-4 elements, empty blocks, blank lines" % (n_constr, script_len),
         "exhaustive": True,
-        "exhaustive_part": {"spelling_cases": n_spelling, "skeletons": n_skel, "skeleton_cases": n_exh - n_spelling,
+        "exhaustive_part": {"spelling_cases": n_spelling, "skeletons": skel_count["skeletons"], "skeleton_cases": skel_count["cases"],
                             "scripts_per_skeleton": len(scripts)},
         "samples": samples,
         "distribution": dist,
+        "malformed_stream": {"cases": n_mal, "model_outcomes": mal_dist},
         "spellings": {k: v for k, v in T.items() if k != "wf"},
     })
     ck.report_broken(found)
